@@ -1299,3 +1299,49 @@ pub fn threshold_cases_light() -> Vec<HistoryCase> {
         })
         .collect()
 }
+
+
+// ---------------------------------------------------------------------------------------
+// T6: exhaustive occurrence patterns — every assignment of (absent / once / twice) to each of the
+// children over k occurrences of one parent, supplied inside one document, across documents, and one
+// level deeper (under a repeated grandparent)
+// ---------------------------------------------------------------------------------------
+
+/// number of patterns for `k` occurrences over `names.len()` children
+pub fn pattern_count(k: usize, n_children: usize) -> u64 {
+    3u64.pow((k * n_children) as u32)
+}
+
+/// the `index`-th pattern as k occurrences of element `p`
+pub fn pattern_occurrences(index: u64, k: usize, names: &[&str]) -> Vec<Elem> {
+    let mut x = index;
+    let mut out = Vec::with_capacity(k);
+    for _ in 0..k {
+        let mut p = Elem::new("p");
+        for n in names {
+            let m = (x % 3) as usize;
+            x /= 3;
+            for _ in 0..m {
+                p.items.push(gen::Item::Elem(Elem::new(n)));
+            }
+        }
+        out.push(p);
+    }
+    out
+}
+
+/// three histories for one pattern: all occurrences in one document; one occurrence per document
+/// (root = the parent itself); occurrences spread under two occurrences of a grandparent
+pub fn pattern_cases(index: u64, k: usize, names: &[&str]) -> Vec<HistoryCase> {
+    let occ = pattern_occurrences(index, k, names);
+    let label = format!("pattern:{}:{}:{}", k, names.len(), index);
+    let one_doc = el("r", occ.clone());
+    let across: Vec<Doc> = occ.iter().map(|p| Doc::plain(p.clone())).collect();
+    let split = k / 2;
+    let nested = el("r", vec![el("q", occ[..split].to_vec()), el("q", occ[split..].to_vec())]);
+    vec![
+        HistoryCase::plain(&format!("{}:one-document", label), vec![Doc::plain(one_doc)]),
+        HistoryCase::plain(&format!("{}:across-documents", label), across),
+        HistoryCase::plain(&format!("{}:nested", label), vec![Doc::plain(nested)]),
+    ]
+}
